@@ -27,16 +27,18 @@ def exc_oracle(res, scn, caller_error=False):
         return
     stage = scn.get("c15", {}).get("stage", "?")
     for key, out in sorted(res.outcomes.items()):
-        for rec in (out, out.get("close_exc")):
+        for rec in (out, out.get("close_exc"), out.get("after_close")):
             if not rec or "exc" not in rec:
                 continue
             name, mod = rec["exc"], rec.get("mod", "")
+            if rec is out.get("after_close") and name == "RuntimeError" and mod == "builtins":
+                continue      # (the response model refusing a second iteration is not I/O)
             if not rec.get("documented"):
                 top = mod.split(".")[0]
                 w.violate("C15", "undocumented:%s.%s@%s" % (top, name, stage),
                           {"msg": rec.get("msg"), "phase": out.get("failed_phase"), "key": key})
                 return
-            if caller_error:
+            if caller_error or rec is out.get("after_close"):
                 continue
             if name == "LocalProtocolError" and "Max outbound streams" in (rec.get("msg") or ""):
                 # root cause shared with KF-C12-2: the client-side stream slot was released
@@ -310,6 +312,21 @@ class FaultFamily(Family):
                 s["faults"] = [{"at": n, "kind": "auto", "variant": v}]
                 res = self.run_scenario(s)
                 u.add_result(res, s, "C15", nontrivial=True, keep_sample=(index % 13 == 0 and v == 0 and n == 3))
+        # no fault at all, but the pool is closed under the open response and the caller
+        # goes on reading: operations on a stream that has been closed locally
+        from .common import _shrink_plan
+
+        s = copy.deepcopy(b)
+        op = s["callers"][0]["ops"][0]
+        if op["resp"].get("framing") in ("cl", "chunked") and op.get("method", "GET") != "HEAD":
+            _shrink_plan(op["resp"], 3000)
+            op["resp"]["cutmode"] = "random"
+            op["resp"]["gap"] = 0.01
+            op["consume"] = {"chunks": 1, "close_pool_midway": True, "more": 3}
+            s["callers"] = s["callers"][:1]
+            s["epilogue"] = []
+            res = self.run_scenario(s)
+            u.add_result(res, s, "C15", nontrivial=True)
         return u
 
 
